@@ -27,12 +27,14 @@ type Report struct {
 	Obs    []*Ob
 	Notes  []string
 	mins   map[string]int
+	allMin map[string]int
+	cfgRul map[string]bool // rules declared in the current config
 	descr  map[string]string
 	seen   map[string]bool
 }
 
 func newReport(prop string) *Report {
-	return &Report{Prop: prop, mins: map[string]int{}, descr: map[string]string{}, seen: map[string]bool{}}
+	return &Report{Prop: prop, mins: map[string]int{}, descr: map[string]string{}, seen: map[string]bool{}, cfgRul: map[string]bool{}}
 }
 
 func (r *Report) add(rule, construct, site, fn string, ok bool, detail string) {
@@ -67,6 +69,7 @@ func (r *Report) Anchor(rule, what string) {
 // Rule declares a rule, its minimum number of matched sites and a description.
 func (r *Report) Rule(rule string, min int, descr string) {
 	r.mins[rule] = min
+	r.cfgRul[rule] = true
 	r.descr[rule] = descr
 }
 
@@ -81,9 +84,10 @@ func (r *Report) finishRules() {
 		}
 	}
 	var rules []string
-	for k := range r.mins {
+	for k := range r.cfgRul {
 		rules = append(rules, k)
 	}
+	r.cfgRul = map[string]bool{}
 	sort.Strings(rules)
 	for _, k := range rules {
 		n := count[k]
